@@ -9,6 +9,9 @@ for p in props:
     pid = p["id"]
     if os.path.exists(os.path.join(VERIF, "harness", "props", pid + ".py")) and os.path.exists(os.path.join(VERIF, "coq", "Props", pid + ".v")):
         m = importlib.import_module("props." + pid)
+        tr = getattr(m, "TRANSLATED", None)
+        tr_note = ("" if not tr else "  Translator tie (second tie, regenerated and compared on every run: harness/pytrans.py -> coq/Gen/*.v; model = translation "
+                   "proved for all well-formed inputs in Proofs/GenTie*.v; trusted: the translator and Gen/Prelude.v) covers: " + ", ".join(tr) + ".")
         checks.append({
             "property_id": pid,
             "quick_cmd": "./check %s --tier quick" % pid,
@@ -17,8 +20,8 @@ for p in props:
             "replay_cmd_template": "./check %s --replay {path}" % pid,
             "engine": "coq-model+py-correspondence",
             "level_claimed": {"category": "proof", "text": getattr(m, "LEVEL_TEXT", "Coq theorems about the Gallina model of the anchored code (coq/Props/%s.v), model tied to /repo by a correspondence check evaluated inside Coq on every run" % pid), "design_ref": "DESIGN.md section 8, " + pid},
-            "level_note": getattr(m, "LEVEL_NOTE", "Trusted: Coq 8.16.1 kernel incl. vm_compute; standard-library axioms of Reals (sig_forall_dec, sig_not_dec, functional_extensionality_dep) as printed by Print Assumptions; Paramcoq; the hand-written model's fidelity is sampled by the correspondence check (1e-9 tolerance), floating-point rounding is modelled as exact"),
-            "technique": getattr(m, "TECHNIQUE", "machine-checked proof in Coq over a hand-written Gallina model + model/implementation correspondence check evaluated by coqc (vm_compute)"),
+            "level_note": getattr(m, "LEVEL_NOTE", "Trusted: Coq 8.16.1 kernel incl. vm_compute; standard-library axioms of Reals (sig_forall_dec, sig_not_dec, functional_extensionality_dep) as printed by Print Assumptions; Paramcoq; the hand-written model's fidelity is sampled by the correspondence check (1e-9 tolerance), floating-point rounding is modelled as exact") + tr_note,
+            "technique": getattr(m, "TECHNIQUE", "machine-checked proof in Coq over a hand-written Gallina model + model/implementation correspondence check evaluated by coqc (vm_compute)") + (" + Python-to-Gallina translator with proved model = translation theorems for the numerical core" if tr else ""),
         })
     else:
         na.append({"property_id": pid, "reason": NA_REASON.get(pid, "check not built yet in this round (planned, see DESIGN.md section 8); nothing is claimed for it")})
